@@ -8,9 +8,16 @@ Monitor (differential observation under perturbation, judged by set algebra only
                     section matching the module, disable_all + re-enable in each of the three, and the real CLI
   ignore comment  D(P + comment)    ==  map(D(P)) minus exactly the targeted diagnostics
                                         + unused_ignore iff nothing was suppressed + bare_ignore iff bare
+  interaction     the same disabling law with EVERY error code enabled in the baseline, for every single code c
+                    (whether or not D(P) has a diagnostic of c) and small subsets, over a corpus of functions whose local
+                    is mentioned only inside string literals with braces / formatted strings / string annotations /
+                    del / global / decorators / closures ...: one check's bookkeeping feeding another check's verdict
 
 Mechanism keys (DESIGN Appendix A):
   disable|<route>|<direction>                              direction: under-suppressed / over-suppressed / new-diagnostic
+  disable-any|<direction>|culprit:<code(s)>                a diagnostic of ANOTHER code appeared / disappeared when <code> was
+                                                           disabled (S reduced to the single code that suffices)
+  disable-any|<route>|under-suppressed                     a diagnostic of the disabled code survived
   comment|<form>|<sel>|<position>|<direction>
       form      trailing / own-line / file-level
       sel       the "coded?" feature expressed as what it means for the failing diagnostic: `sel` = the comment is bare
@@ -60,7 +67,20 @@ RULE = (
     "for every line where tokenize shows the insertion leaves the token stream unchanged, plus an own-line comment "
     "after the last line, plus leading (file-level) placements. Non-trivial = disable case with {} != S != codes(P); "
     "comment case whose target line carries a diagnostic or which is a boundary placement (line 1, last line, EOF, line "
-    "after a multi-diagnostic line, leading). Distinct by (program digest, route, S) / (program digest, form, line, comment)."
+    "after a multi-diagnostic line, leading). Distinct by (program digest, route, S) / (program digest, form, line, comment). "
+    "Per program also 2 singletons of codes WITHOUT a diagnostic in D(P) through the override routes. Interaction corpus: "
+    "functions = (15 ways to bind a local: assignment, annotated, reassigned, in a branch, maybe-unbound, unpacking, for, "
+    "with, import, walrus, augmented, nested def, parameter, global) x (50 ways to mention it without reading it: inside "
+    "the braces of a plain string - returned, passed, stored, with conversion / attribute / subscript / expression, next "
+    "to an unknown name, doubled braces, .format(keyword / **locals()) / format_map, template call with and without the "
+    "keyword, expression statement, bytes, implicit concatenation, triple-quoted, literal part of an f-string, "
+    "%-formatting - string annotations of variables / parameters / returns, cast('name'), del, decorator, locals(), "
+    "eval, closure, lambda, class body, comprehension, assert message, dict key, default argument, comment, plus "
+    "controls: no mention, a real read, a real f-string) x (def, async def, method, staticmethod, nested def), as a "
+    "Latin-square grid of 15 parts of 50 functions (quick: 3 parts chosen by the seed; thorough: all). Every code is "
+    "enabled in the baseline; S = {c} for EVERY error code c through settings (all parts) and through top-level "
+    "`c = false` / an [[overrides]] section (alternating), random 2-4-subsets of all codes, the complement of codes(P), "
+    "and --enable-all -d c on the real command line. Non-trivial: every such case (D(P) non-empty, S != {})."
 )
 ASSUMPTIONS = [
     "diagnostics are compared as multisets of (code, lineno, col_offset, description); message/context text is not compared",
@@ -73,20 +93,29 @@ ASSUMPTIONS = [
     "bare_ignore on a bare file-level comment is observed, not judged (documented as allowed)",
     "'suppressed nothing' is decided on what was observed: no diagnostic of D(P) is missing from D(P + comment)",
     "diagnostics produced after check() returns (ClassAttributeChecker) are not observable through harness.run except on the CLI route",
+    "interaction corpus: base run and disabled run happen in one process (same hash seed), so an iteration-order "
+    "dependent verdict of pyanalyze (a set of names walked with all()) is the same in both",
 ]
 FLOORS = {   # ~50 % of what the unchanged tree yields (quick: 160 programs, thorough: 1600)
     "quick": {"distinct_nontrivial": 10400, "programs": 80, "disable_cases": 7300, "disable_cases_nontrivial": 6900,
               "comment_cases": 10300, "comment_cases_target_has_diag": 1900, "comment_suppressed_something": 2150,
-              "eof_own_line_cases": 240, "file_level_bare_cases": 90, "fresh_checker_configs": 400, "cli_runs": 16},
+              "eof_own_line_cases": 240, "file_level_bare_cases": 90, "fresh_checker_configs": 400, "cli_runs": 16,
+              "disable_cases_foreign_code": 320, "interaction_cases": 200, "interaction_cases_code_not_in_D(P)": 160,
+              "interaction_functions": 75, "interaction_functions_mention_counts_as_use": 28,
+              "interaction_functions_brace_mention_counts_as_use": 15, "interaction_cli_cases": 4},
     "thorough": {"distinct_nontrivial": 105000, "programs": 800, "disable_cases": 75000, "disable_cases_nontrivial": 72000,
                  "comment_cases": 105000, "comment_cases_target_has_diag": 19000, "comment_suppressed_something": 21500,
-                 "eof_own_line_cases": 2400, "file_level_bare_cases": 880, "fresh_checker_configs": 4800, "cli_runs": 72},
+                 "eof_own_line_cases": 2400, "file_level_bare_cases": 880, "fresh_checker_configs": 4800, "cli_runs": 72,
+                 "disable_cases_foreign_code": 3200, "interaction_cases": 850, "interaction_cases_code_not_in_D(P)": 650,
+                 "interaction_functions": 375, "interaction_functions_mention_counts_as_use": 140,
+                 "interaction_functions_brace_mention_counts_as_use": 70, "interaction_cli_cases": 16},
 }
 LEVEL_TEXT = (
     "held-on-explored: every (program, S, route) and every admissible comment placement of the generated programs was "
     "executed through the real checker and judged by multiset algebra on its own output; nothing is claimed about "
     "programs, routes or placements outside the rule (comments inside strings, several comments per file, "
-    "diagnostics of the ClassAttributeChecker)"
+    "diagnostics of the ClassAttributeChecker); on the interaction corpus every single code was disabled, larger "
+    "subsets only sampled"
 )
 NSHARDS = 16
 WATCHDOG_S = {"quick": 3600, "thorough": 14400}   # safety net only (never a verdict); generous because sibling checks share the machine
@@ -386,31 +415,42 @@ INTERACTION_PREAMBLE = [
 N_PARTS = len(BINDINGS)          # part p pairs ref r with binding (r + p) mod |BINDINGS|: all parts = the full grid
 
 
-def interaction_program(part: int, rot: int = 0):
-    """Module text of one part of the grid + the list of (binding, ref, context, first line, last line) per function.
-    `rot` rotates the context assignment only."""
+def assemble(triples):
+    """Module text for a list of (binding index, ref index, context name) + the list of
+    (binding, ref, context, first line, last line) per function."""
     lines = list(INTERACTION_PREAMBLE)
     units = []
-    for r, (rname, ref) in enumerate(REFS):
-        bname, bind, params = BINDINGS[(r + part) % len(BINDINGS)]
-        cname = CONTEXTS[(r + part // 2 + rot) % len(CONTEXTS)]
-        v = f"v{r}"
+    for k, (bi, r, cname) in enumerate(triples):
+        bname, bind, params = BINDINGS[bi]
+        rname, ref = REFS[r]
+        v = f"v{k}"
         body = [ln.replace(VAR, v) for ln in bind + ref]
         params = params.replace(VAR, v)
         lines += ["", ""]
         start = len(lines) + 1
         if cname == "def":
-            lines += [f"def f{r}(flag{params}):"] + ["    " + ln for ln in body]
+            lines += [f"def f{k}(flag{params}):"] + ["    " + ln for ln in body]
         elif cname == "async":
-            lines += [f"async def f{r}(flag{params}):"] + ["    " + ln for ln in body]
+            lines += [f"async def f{k}(flag{params}):"] + ["    " + ln for ln in body]
         elif cname == "method":
-            lines += [f"class C{r}:", f"    def m(self, flag{params}):"] + ["        " + ln for ln in body]
+            lines += [f"class C{k}:", f"    def m(self, flag{params}):"] + ["        " + ln for ln in body]
         elif cname == "staticmethod":
-            lines += [f"class C{r}:", "    @staticmethod", f"    def m(flag{params}):"] + ["        " + ln for ln in body]
+            lines += [f"class C{k}:", "    @staticmethod", f"    def m(flag{params}):"] + ["        " + ln for ln in body]
         else:
-            lines += [f"def f{r}(outer):", f"    def g(flag{params}):"] + ["        " + ln for ln in body] + ["    return g"]
+            lines += [f"def f{k}(outer):", f"    def g(flag{params}):"] + ["        " + ln for ln in body] + ["    return g"]
         units.append((bname, rname, cname, start, len(lines)))
     return "\n".join(lines) + "\n", units
+
+
+def interaction_program(part: int, rot: int = 0):
+    """One part of the grid: ref r is paired with binding (r + part) mod |BINDINGS|; `rot` rotates the contexts."""
+    return assemble([((r + part) % len(BINDINGS), r, CONTEXTS[(r + part // 2 + rot) % len(CONTEXTS)])
+                     for r in range(len(REFS))])
+
+
+def control_program():
+    """Every binding with no mention at all: which bindings does pyanalyze report as unused when nothing refers to them?"""
+    return assemble([(bi, 0, "def") for bi in range(len(BINDINGS))])
 
 
 def unit_at(units, lineno) -> tuple:
@@ -492,9 +532,13 @@ def interaction_runs(route: str, source: str, S):
 
 
 def interaction_key(route: str, direction: str, S, d) -> str:
-    """disable-any|<direction>|<code of the affected diagnostic>: the route and the disabled code are not part of the
-    key (one hidden dependency between two checks shows through every route); they are in the text."""
-    return f"disable-any|{direction}|{d[0]}"
+    """A diagnostic of a code outside S changed (appeared / disappeared): `disable-any|<direction>|culprit:<S>` -- the
+    hidden dependency on the disabled code is the mechanism, whichever route, program or affected code shows it (the
+    shard reduces S to the single code that suffices).  A diagnostic of a code in S survived: the route did not
+    disable it: `disable-any|<route>|under-suppressed`."""
+    if direction == "under-suppressed":
+        return f"disable-any|{route}|under-suppressed"
+    return f"disable-any|{direction}|culprit:{'+'.join(sorted(S))}"
 
 
 def interaction_case(route: str, source: str, S):
@@ -811,11 +855,156 @@ def report(ctx, key, what, witness, seen_keys, budget):
     ctx.violation(key, what, witness)
 
 
+def interaction_section(ctx, seen_keys: set) -> None:
+    """Every error code c (and small subsets) disabled over the interaction corpus, every code enabled in the baseline.
+    Codes are dealt to the shards; one Checker per (code, route) is shared by the parts of the corpus."""
+    nparts = ctx.pick(3, N_PARTS)
+    parts = [(ctx.seed * nparts + k) % N_PARTS for k in range(nparts)]
+    progs = {p: interaction_program(p, rot=ctx.seed) for p in parts}
+    my_codes = [(i, c) for i, c in enumerate(ALL_REAL_CODES) if ctx.mine(i)]
+    rng = random.Random(f"C11-inter/{ctx.seed}/{ctx.shard}")
+    bases: dict = {}
+
+    def base_for(route: str, p: int) -> Counter:
+        """D(P) under the all-enabled baseline of the route (in-process routes share one result per configuration kind)."""
+        kind = {"all-settings": "settings", "all-toplevel": "toplevel", "all-override": "toplevel"}.get(route, route)
+        if (kind, p) not in bases:
+            if ("kw", kind) not in bases:
+                bases[("kw", kind)] = kw_all() if kind == "settings" else kw_from_config(all_config())
+                ctx.count("fresh_checker_configs")
+            bases[(kind, p)] = run_diags(progs[p][0], bases[("kw", kind)], "vpc11.base.m" if kind == "toplevel" else INTERACTION_MOD)
+        return bases[(kind, p)]
+
+    def culprit_of(route: str, source: str, S, direction: str):
+        """Smallest part of S that still breaks the same clause (a single code if one suffices)."""
+        S = list(S)
+        if len(S) > 1:
+            for c in S:
+                try:
+                    b, g = interaction_runs(route, source, [c])
+                except Undecided:
+                    continue
+                v = judge_disable(b, g, [c])
+                if v is not None and v[0] == direction:
+                    return [c]
+        return sorted(S)
+
+    def judge(route: str, S, p: int, got: Counter) -> None:
+        base = base_for(route, p)
+        source, units = progs[p]
+        ctx.count("evaluations")
+        ctx.count("interaction_cases")
+        ctx.histo("interaction_route", route)
+        ctx.histo("interaction_subset_size", str(min(len(S), 4)) if len(S) < 10 else "complement-of-codes(P)")
+        in_base = any(d[0] in S for d in base)
+        ctx.count("interaction_cases_code_in_D(P)" if in_base else "interaction_cases_code_not_in_D(P)")
+        ctx.nontrivial(("inter", p, ctx.seed % len(CONTEXTS), route, tuple(sorted(S))))
+        v = judge_disable(base, got, S)
+        if v is None:
+            return
+        direction, d = v
+        small = extract_unit(source, units, d[1])
+        try:
+            cul = culprit_of(route, small, S, direction)
+            res = interaction_case(route, small, cul)
+            if res is None or res[0] != interaction_key(route, direction, cul, d):
+                small, res = source, interaction_case(route, source, cul)
+        except Undecided:
+            cul, res = sorted(S), None
+        key = interaction_key(route, direction, cul, d)
+        b, r, c = unit_at(units, d[1])
+        what = (res[1] if res and res[0] == key else
+                f"every code enabled, disable {sorted(S)} via {route}: {direction}: {short(d)}") + f" [local bound by {b}, mentioned by {r}, in {c}]"
+        ctx.histo("interaction_violation_shape", f"{b} x {r}")
+        if key in seen_keys:
+            ctx.violation_counts[key] = ctx.violation_counts.get(key, 0) + 1
+            return
+        seen_keys.add(key)
+        ctx.violation(key, what, {"kind": "interaction", "route": route, "source": small, "S": cul})
+
+    try:
+        for p in parts:
+            base = base_for("all-settings", p)
+            if ctx.shard == 0:
+                ctx.count("interaction_programs")
+                ctx.count("interaction_functions", len(progs[p][1]))
+                for c in sorted({d[0] for d in base}):
+                    ctx.histo("interaction_codes_in_D(P)", c)
+                per_unit: dict = {}
+                for d in base.elements():
+                    per_unit.setdefault(unit_at(progs[p][1], d[1]), set()).add(d[0])
+                # functions whose local would be reported unused if nothing mentioned it (observed on the control
+                # program) and is NOT reported: the mention inside a string / del / annotation ... counted as a use --
+                # the workload the dependencies between checks of different codes live in
+                if "reported-unused-bindings" not in bases:
+                    csrc, cunits = control_program()
+                    cbase = run_diags(csrc, base_for("all-settings", p) and bases[("kw", "settings")], INTERACTION_MOD)
+                    bases["reported-unused-bindings"] = {unit_at(cunits, d[1])[0] for d in cbase
+                                                         if d[0] in ("unused_variable", "unused_assignment")}
+                    for b in sorted(bases["reported-unused-bindings"]):
+                        ctx.histo("interaction_binding_reported_unused_when_unmentioned", b)
+                for b, r, c, _, _ in progs[p][1]:
+                    unused = bool(per_unit.get((b, r, c), set()) & {"unused_variable", "unused_assignment"})
+                    if b in bases["reported-unused-bindings"] and r not in ("none", "read", "fstring"):
+                        ctx.count("interaction_functions_unused_unless_mention_counts")
+                        ctx.histo("interaction_mention_counts_as_use", f"{r}:{'no' if unused else 'yes'}")
+                        if not unused:
+                            ctx.count("interaction_functions_mention_counts_as_use")
+                            if r.startswith("brace"):
+                                ctx.count("interaction_functions_brace_mention_counts_as_use")
+        # (a) every single code, in-process settings route, all parts of this run
+        for i, c in my_codes:
+            kw = kw_all([c])
+            ctx.count("fresh_checker_configs")
+            for p in parts:
+                judge("all-settings", (c,), p, run_diags(progs[p][0], kw, INTERACTION_MOD))
+            del kw
+            # (b) the same code through a configuration file (top-level `c = false` / an override section), first part
+            route = ("all-toplevel", "all-override")[(i // ctx.nshards + ctx.seed) % 2]
+            p = parts[i % len(parts)]
+            if route == "all-toplevel":
+                got = run_diags(progs[p][0], kw_from_config(all_config([c])), "vpc11.base.m")
+            else:
+                got = run_diags(progs[p][0], kw_from_config(all_config([c], override_for="vpc11.inter")), INTERACTION_MOD)
+            ctx.count("fresh_checker_configs")
+            judge(route, (c,), p, got)
+            gc.collect()
+        # (c) small subsets of ALL codes, and the complement of codes(P) (what disable_all + re-enable amounts to)
+        for _ in range(ctx.pick(2, 16)):
+            S = tuple(sorted(rng.sample(ALL_REAL_CODES, rng.choice([2, 2, 3, 4]))))
+            p = rng.choice(parts)
+            ctx.count("fresh_checker_configs")
+            judge("all-settings", S, p, run_diags(progs[p][0], kw_all(S), INTERACTION_MOD))
+        if ctx.shard % ctx.pick(4, 1) == 0:
+            p = parts[(ctx.shard // 4) % len(parts)]
+            present = {d[0] for d in base_for("all-settings", p)}
+            S = tuple(c for c in ALL_REAL_CODES if c not in present)
+            ctx.count("fresh_checker_configs")
+            judge("all-settings", S, p, run_diags(progs[p][0], kw_all(S), INTERACTION_MOD))
+            # (d) the real command line: --enable-all -d c
+            # one code of this shard's deal and one code that has diagnostics in D(P)
+            i, c = my_codes[ctx.seed % len(my_codes)]
+            there = sorted(present - {c})
+            for S in ((c,), (there[(ctx.shard // 4 + ctx.seed) % len(there)],)):
+                if ("all-cli", p) not in bases:
+                    bases[("all-cli", p)] = cli_all_diags(progs[p][0], [])
+                    ctx.count("cli_runs")
+                got = cli_all_diags(progs[p][0], [a for x in S for a in ("-d", x)])
+                ctx.count("cli_runs")
+                ctx.count("interaction_cli_cases")
+                judge("all-cli", S, p, got)
+    except Undecided as e:
+        ctx.count("undecided")
+        ctx.note(f"interaction corpus: {e}")
+
+
 def shard(ctx) -> None:
     nprog = ctx.pick(160, 1600)
     prog_rng = random.Random(f"C11-programs/{ctx.seed}")   # the same program list in every shard
     shared = _Shared()
     seen_keys: set = set()
+    interaction_section(ctx, seen_keys)
+    gc.collect()
     cli_left = ctx.pick(1, 3)
     mine_count = 0
     for idx in range(nprog):
@@ -879,13 +1068,17 @@ def shard(ctx) -> None:
 
         try:
             # override routes: one config / Checker per program carries a section per subset
-            kw_o = kw_from_config(override_config(subsets, codes))
+            # + singletons of codes that have NO diagnostic in D(P): disabling them must change nothing
+            foreign = rng.sample([c for c in ALL_CODES if c not in codes and c not in SPECIAL], 2)
+            subsets_o = subsets + [(c,) for c in foreign]
+            ctx.count("disable_cases_foreign_code", 2 * len(foreign))
+            kw_o = kw_from_config(override_config(subsets_o, codes))
             ctx.count("fresh_checker_configs")
             base_o = run_diags(source, kw_o, "vpc11.base.m")
             ctx.histo("baseline_vs_settings", "override:" + ("equal" if base_o == base else "differs"))
             if base_o != base:
                 ctx.note(f"program {idx}: baseline under override config differs from settings baseline")
-            for j, S in enumerate(subsets):
+            for j, S in enumerate(subsets_o):
                 judge("override", S, run_diags(source, kw_o, override_modname("s", j)), base_o)
                 judge("override-disable-all", S, run_diags(source, kw_o, override_modname("d", j)), base_o)
             # a section for another module / a string-prefix of the module name must not apply
@@ -1042,6 +1235,8 @@ def replay(witness):
                                 witness.get("indent", ""), comment_kw())
         if kind == "disable":
             return disable_case(witness["route"], witness["source"], witness["S"], witness["codes"])
+        if kind == "interaction":
+            return interaction_case(witness["route"], witness["source"], witness["S"])
         if kind == "nonmatching":
             kw = kw_from_config(override_config([witness["S"]], witness["codes"]))
             base = run_diags(witness["source"], kw, "vpc11.base.m")
